@@ -1,6 +1,6 @@
 """C17 - JSON and XML serialisation round-trip through their parsers.
 
-Three families, all evaluated with XPath31Parser through elementpath.select:
+Three families, all evaluated with XPath31Parser at token level (engine.evaluate):
   json_value : v -> serialize(v, map{'method':'json'}) -> parse-json, compared with the value model
                and with an independent RFC 8259 reading of the serialised text;
   json_text  : JSON text t in many spellings -> xml-to-json(json-to-xml(t[, escape])) read back by the
@@ -19,8 +19,6 @@ from ..core import Outcome
 from ..engine import call, evaluate
 from ..models import jsonmodel as jm
 
-import elementpath
-from elementpath.xpath31 import XPath31Parser
 from elementpath.xpath_tokens import XPathMap, XPathArray
 
 PROPERTY = 'C17'
@@ -503,7 +501,7 @@ def run_isolated(spec, problems, pipeline, out, prefix, group=None):
             symptoms.update(sym for sym, _, _ in sub)
     if not emitted:
         for sym, c, detail in problems:
-            key = '%s/%s/combination/%s' % (prefix, sym, grouped(c, group) if c else 'unclassified')
+            key = '%s/%s/combination/%s' % (prefix, sym, grouped(c.split('+')[0], group) if c else 'unclassified')
             if key not in emitted:
                 emitted.add(key)
                 out.fail(key, detail)
@@ -562,7 +560,7 @@ def text_pipeline(text, escape, lib, spec=None):
     except jm.NotJSON as e:
         return [('output-not-json', None, {'t': short(text), 'escape': escape, 'out': short(res),
                                            'reader': str(e)})], res
-    except jm.DuplicateKey as e:
+    except jm.DuplicateKey:
         return [('output-duplicate-key', None, {'t': short(text), 'escape': escape, 'out': short(res)})], res
     d = jm.diff(spec, got, replace_nonxml=not escape)
     if d is not None:
@@ -883,6 +881,19 @@ def xdiff(a, b):
     return None
 
 
+def elem_order(e, acc=None, tail=False):
+    """[(index in document order, followed by a text node?)] of the elements of a tree spec"""
+    if acc is None:
+        acc = []
+    acc.append((len(acc), tail))
+    kids = e['kids']
+    for i, k in enumerate(kids):
+        if isinstance(k, dict):
+            nxt = kids[i + 1] if i + 1 < len(kids) else None
+            elem_order(k, acc, bool(nxt is not None and not isinstance(nxt, dict) and nxt[0] == 't' and nxt[1]))
+    return acc
+
+
 def count_nodes(e):
     n = 1 + len(e['att'])
     for k in e['kids']:
@@ -972,7 +983,6 @@ def check_xml_tree(case, out):
 
     # ---- stage 1: fn:serialize, read back by libxml2
     ser_ok = False
-    ser_class = None
     back_canon = back_lenient = None
     o = xp(xroot, 'serialize(.)', **kw)
     s = None
@@ -1003,7 +1013,6 @@ def check_xml_tree(case, out):
             if d is None:
                 ser_ok = True
             else:
-                ser_class = d
                 out.fail('C17/xml/serialize/%s/%s' % (lib, d), dict(detail0, serialized=short(s, 300)))
 
     # ---- stage 2: parse-xml(serialize(.)) compared structurally
@@ -1172,12 +1181,17 @@ def run(h):
         lib = libs[i % 2]
         doc = g_doc(r, lib)
         x = r.random()
-        if x < 0.3:
+        order = elem_order(doc['root'])
+        inner = [i for i, _ in order[1:]]
+        tailed = [i for i, t in order[1:] if t]
+        if x < 0.25 or (x >= 0.45 and not inner):
             node = 'document'
-        elif x < 0.55:
+        elif x < 0.45:
             node = 0
+        elif tailed and x < 0.8:
+            node = r.choice(tailed)
         else:
-            node = r.randint(1, 12)
+            node = r.choice(inner)
         h.case('xml_tree', {'doc': doc, 'lib': lib, 'node': node, 'asdoc': r.random() < 0.5})
 
 
@@ -1190,7 +1204,7 @@ def floors(v):
                         ('json_text_escape', 'True', 500), ('json_text_escape', 'False', 500),
                         ('xml_lib', 'et', 300), ('xml_lib', 'lxml', 300),
                         ('xml_context', 'document', 100), ('xml_context', 'root-element', 100),
-                        ('xml_context', 'inner-element', 50), ('xml_context', 'inner-element+tail', 50)):
+                        ('xml_context', 'inner-element', 50), ('xml_context', 'inner-element+tail', 40)):
         if v.got(dim, val) < n:
             reasons.append('%s=%s seen %d times (< %d)' % (dim, val, v.got(dim, val), n))
     for cls in ('string/quote', 'string/backslash', 'string/solidus', 'string/astral', 'string/escape-lookalike',
